@@ -16,7 +16,9 @@ RULE = ('fragment texts built as token lists: a random molecule (or coarse graph
         'none) are inserted after atoms - before, after or between ring digits, or leading for the first atom - and '
         'annotations (positional/keyword weight, chirality, free keys) inside bracket atoms. Expected result is known by '
         'construction: text without insertions, ordered descriptor list kind+label+order per atom index, annotation dict per '
-        'atom (independent annotation model). Checked on strip_bonding_descriptors and end-to-end through read_fragments. '
+        'atom (independent annotation model). Checked on strip_bonding_descriptors and end-to-end through read_fragments; '
+        'then every returned container (descriptor lists, annotation dicts, the fragment graph) is emptied / edited in place, as '
+        'a caller stitching by hand would, and the SAME text is read and checked a second time. '
         'distinct = (feature set, #atoms, #descriptors); non-trivial = at least one descriptor or annotation.')
 ASSUMPTIONS = ['slash marks (E/Z) are not part of this workload: they are removed from the text by design (C15)',
                'the aromatic bond symbol : is generated as a descriptor order on aromatic atoms only (order reported as 1.5)']
@@ -175,7 +177,8 @@ def cases(seed, tier, shard, nshards):
                    natoms=len(atoms), coarse=coarse, features=sorted(feats))
 
 
-def run(case):
+def check_once(case, tag=''):
+    """one read of the text through strip_bonding_descriptors and read_fragments; returns (violations, returned objects)"""
     from cgsmiles.read_fragments import strip_bonding_descriptors
     import cgsmiles
     viol = []
@@ -185,43 +188,75 @@ def run(case):
     try:
         clean, desc, ez, attrs = strip_bonding_descriptors(text)
     except Exception as err:
-        return {'violations': [V('c13.exception.' + type(err).__name__, f'{text!r} raised {type(err).__name__}: {err}')],
-                'cls': tuple(case['features'])}
+        return [V('c13.exception.' + type(err).__name__, f'{text!r}{tag} raised {type(err).__name__}: {err}')], None
+    returned = [desc, ez, attrs]
     if clean != case['clean']:
-        viol.append(V('c13.clean_text', f'{text!r}: clean text {clean!r}, expected {case["clean"]!r}'))
+        viol.append(V('c13.clean_text', f'{text!r}{tag}: clean text {clean!r}, expected {case["clean"]!r}'))
     got = {k: list(v) for k, v in desc.items() if v}
     if got != exp_desc:
-        viol.append(V('c13.descriptors', f'{text!r}: descriptors by atom {got}, expected {exp_desc}'))
+        viol.append(V('c13.descriptors', f'{text!r}{tag}: descriptors by atom {got}, expected {exp_desc}'))
     for i in range(case['natoms']):
         a = dict(attrs.get(i, {}))
         want = exp_attr.get(i)
         if want is None:
             if any(k != 'weight' or v != 1.0 for k, v in a.items()):
-                viol.append(V('c13.annotation_on_wrong_atom', f'{text!r}: atom {i} has annotations {a} but none was written on it'))
+                viol.append(V('c13.annotation_on_wrong_atom', f'{text!r}{tag}: atom {i} has annotations {a} but none was written on it'))
                 break
         elif any(a.get(k) != v for k, v in want.items()) or any(k not in want for k in a):
-            viol.append(V('c13.annotation', f'{text!r}: atom {i} has annotations {a}, expected {want}'))
+            viol.append(V('c13.annotation', f'{text!r}{tag}: atom {i} has annotations {a}, expected {want}'))
             break
     if any(i >= case['natoms'] for i in attrs) or any(i >= case['natoms'] for i in got):
-        viol.append(V('c13.atom_index_out_of_range', f'{text!r}: index beyond the {case["natoms"]} atoms: {sorted(got)} {sorted(attrs)}'))
+        viol.append(V('c13.atom_index_out_of_range', f'{text!r}{tag}: index beyond the {case["natoms"]} atoms: {sorted(got)} {sorted(attrs)}'))
     if ez:
-        viol.append(V('c13.spurious_ez', f'{text!r}: E/Z marks {ez} reported but none written'))
+        viol.append(V('c13.spurious_ez', f'{text!r}{tag}: E/Z marks {ez} reported but none written'))
     # end to end through read_fragments
     if not viol:
         try:
             frags = cgsmiles.read_fragments('{#T=' + text + '}', all_atom=not case['coarse'])
             g = frags['T']
+            returned.append(g)
             gd = {n: list(d.get('bonding')) for n, d in g.nodes(data=True) if d.get('bonding')}
             if gd != exp_desc:
-                viol.append(V('c13.read_fragments_descriptors', f'{text!r}: read_fragments puts descriptors {gd}, expected {exp_desc}'))
+                viol.append(V('c13.read_fragments_descriptors', f'{text!r}{tag}: read_fragments puts descriptors {gd}, expected {exp_desc}'))
             for i, want in exp_attr.items():
                 if i not in g or any(g.nodes[i].get(k) != v for k, v in want.items()):
-                    viol.append(V('c13.read_fragments_annotation', f'{text!r}: node {i} has {dict(g.nodes[i]) if i in g else None}, expected annotation {want}'))
+                    viol.append(V('c13.read_fragments_annotation', f'{text!r}{tag}: node {i} has {dict(g.nodes[i]) if i in g else None}, expected annotation {want}'))
                     break
         except SyntaxError as err:
             pass   # chemically invalid after decoration is not this property's concern
         except Exception as err:
-            viol.append(V('c13.read_fragments_exception.' + type(err).__name__, f'{text!r} raised {type(err).__name__}: {err}'))
+            viol.append(V('c13.read_fragments_exception.' + type(err).__name__, f'{text!r}{tag} raised {type(err).__name__}: {err}'))
+    return viol, returned
+
+
+def scribble(returned):
+    """what a caller may do with results it owns: use up descriptor lists, edit annotation dictionaries, edit the graph"""
+    desc, ez, attrs = returned[:3]
+    for v in desc.values():
+        if isinstance(v, list):
+            v.clear()
+    desc.clear()
+    for a in attrs.values():
+        if isinstance(a, dict):
+            a['weight'] = -7.0
+            a['scribble'] = 'x'
+    attrs.clear()
+    for g in returned[3:]:
+        for n, d in g.nodes(data=True):
+            if isinstance(d.get('bonding'), list):
+                d['bonding'].clear()
+            d['weight'] = -7.0
+            d['scribble'] = 'x'
+
+
+def run(case):
+    viol, returned = check_once(case)
+    if not viol and returned is not None:
+        # the same text read again after the caller has consumed / edited what the first read returned
+        scribble(returned)
+        v2, _ = check_once(case, tag=' (read again after the results of the first read were edited in place)')
+        viol += [V(v['clause'] + '.second_read', v['msg']) for v in v2]
+    exp_desc = {int(k): v for k, v in case['desc'].items()}
     nd = sum(len(v) for v in exp_desc.values())
-    return {'violations': viol, 'nontrivial': bool(nd or exp_attr), 'cls': (tuple(case['features']), case['natoms'], nd),
-            'sample': text}
+    return {'violations': viol, 'nontrivial': bool(nd or case['attrs']), 'cls': (tuple(case['features']), case['natoms'], nd),
+            'sample': case['text'], 'evaluations': 2 if returned is not None and len(viol) == 0 else 1}
